@@ -72,6 +72,7 @@ type Contract struct {
 	PureRefs    bool // `pure refs`: a function of its argument VALUES even when they are references (the referenced objects are immutable)
 	NoPanic     bool
 	Trusted     string
+	AssumeEnsures string // `assumeensures "reason"`: the ensures clauses are assumed (not proved) while the body is still verified for its other clauses
 	AssumeFrame string // `assumeframe "reason"`: the modifies clause is assumed (not proved) while the body is still verified
 	Lets        []LetSpec
 	Waived      map[string]string // obligation suffix -> reason: generated and attempted, but not claimed
@@ -97,7 +98,7 @@ type ContractFile struct {
 }
 
 var clauseKeywords = map[string]bool{
-	"props": true, "assumeframe": true, "return": true, "requires": true, "ensures": true, "shows": true, "modifies": true, "decreases": true,
+	"props": true, "assumeframe": true, "assumeensures": true, "return": true, "requires": true, "ensures": true, "shows": true, "modifies": true, "decreases": true,
 	"loop": true, "call": true, "assert": true, "inline": true, "pure": true, "nopanic": true,
 	"trusted": true, "param": true, "let": true, "unclaimed": true,
 }
@@ -238,6 +239,11 @@ func addClause(cf *ContractFile, c *Contract, words []string, text, path string,
 		c.Trusted = strings.Trim(rest, `"`)
 		if c.Trusted == "" {
 			c.Trusted = "trusted"
+		}
+	case "assumeensures":
+		c.AssumeEnsures = strings.Trim(rest, `"`)
+		if c.AssumeEnsures == "" {
+			c.AssumeEnsures = "assumed"
 		}
 	case "assumeframe":
 		c.AssumeFrame = strings.Trim(rest, `"`)
